@@ -1960,6 +1960,13 @@ class UserSpaceImpl(*_user_space_impl_base):
     def on_rename(self, name):
         self.model.clear_obj(self)
         self.clear_all_cells(clear_input=True, recursive=True, del_items=True)
+        # formulas elsewhere that read a reference of this tree by its path
+        spaces = [self]
+        while spaces:
+            space = spaces.pop()
+            for ref in space.own_refs.values():
+                self.model.clear_attr_referrers(ref)
+            spaces.extend(space.named_spaces.values())
         old_name = self.name
         self.name = name
         self.parent.named_spaces.rename_item(old_name, name)
